@@ -182,6 +182,10 @@ EXTRA = [
     "from nada_dsl import *\ndef f(a: Integer) -> Integer:\n    return a\ndef g(a: Integer) -> Integer:\n    return f(a)\ndef f(a: Integer) -> str:\n    return 's'\n"
     "def nada_main():\n    p = Party(name='P')\n    y = g(Integer(1))\n    z = [y]\n    return []\n",
     "from nada_dsl import *\ndef Party(x: int) -> int:\n    return x\nfrom nada_dsl import *\ndef nada_main():\n    q = Party(1)\n    z = [q]\n    return []\n",
+    # module-level statements that call a helper defined further down, or a built-in whose name a later helper takes
+    "from nada_dsl import *\nBONUS = triple(Integer(2))\ndef triple(x: Integer) -> Integer:\n    return x + x + x\ndef nada_main():\n    p = Party(name='P')\n    y = BONUS\n    return []\n",
+    "from nada_dsl import *\np = Party(name='P')\nvotes = [SecretInteger(Input(name='v', party=p))]\ntotal = sum(votes)\ndef sum(l: list[SecretInteger]) -> Integer:\n    return Integer(0)\n"
+    "def nada_main():\n    y = total\n    z = [y]\n    return [Output(y, 'o', p)]\n",
     # the target of an inner loop is a variable that the enclosing loop's body reads
     "from nada_dsl import *\ndef nada_main():\n    p = Party(name='P')\n    j = Integer(1)\n    for i in range(2):\n        y = j\n        for j in range(1):\n            z = j\n    return []\n",
     "from nada_dsl import *\ndef nada_main():\n    p = Party(name='P')\n    a = SecretInteger(Input(name='a', party=p))\n    t = a\n    for i in range(2):\n        for k2 in range(2):\n"
